@@ -463,3 +463,47 @@ func TestC05Order(t *testing.T) {
 		},
 	})
 }
+
+// C14Refire: "a resolve-then-fire is never notified as resolved and dropped from its group". The E4 schedules with a
+// prefix that lets an alert fire, end and be reported resolved, and puts its re-fire while the goroutine that flushes
+// the resolution is held at one of the schedule points at the end of the flush (after the notification, at a log
+// line of the group); judged as C14Schedule.
+func genC14Refire(t *rapid.T) c06Scenario {
+	sc := genC06(t)
+	for _, p := range []string{"flush.notified", "log:ag-other"} {
+		if !slices.Contains(sc.Park, p) && rapid.IntRange(0, 3).Draw(t, "force:"+p) > 0 {
+			sc.Park = append(sc.Park, p)
+		}
+	}
+	a := rapid.IntRange(0, 3).Draw(t, "refireAlert")
+	pre := []c06Step{{Op: "put", Alert: a, EndOff: 4}}
+	// the first flush (group_wait 0 or 5 s) may park too: release what is parked, let the alert end and the next flush come
+	pre = append(pre, c06Step{Op: "advance", Dt: 8}, c06Step{Op: "release"}, c06Step{Op: "release"},
+		c06Step{Op: "advance", Dt: sc.GroupInterval + 1}, c06Step{Op: "release"})
+	for i, n := 0, rapid.IntRange(0, 2).Draw(t, "extraRelease"); i < n; i++ {
+		pre = append(pre, c06Step{Op: "release"})
+	}
+	pre = append(pre, c06Step{Op: "put", Alert: a, EndOff: 300}, c06Step{Op: "release"}, c06Step{Op: "release"})
+	sc.Steps = append(pre, sc.Steps...)
+	return sc
+}
+
+func TestC14Refire(t *testing.T) {
+	pbt.Run(t, pbt.Spec[c06Scenario]{
+		Property: "C14", Name: "C14Refire",
+		Rule: "the scenarios of C06Schedule after a prefix: an alert is put with an end 4 s ahead, is flushed, ends, and the flush one group_interval later reports it resolved; flush.notified and the log lines of the group (schedule points log:flushing / log:ag-other of the gating logger) are usually among the parking points, so the flushing goroutine can be held between its notification and the end of the flush while the re-fire of the alert (end 300 s ahead) is put; releases follow. Judged as C14Schedule: after draining, the re-fired alert is held by exactly one live group and notified, and nothing stale is notified later. Non-trivial: two goroutines were inside groupAlert for creation at once, or a flush was parked at its end (class parked-at-flush-end).",
+		Gen:  genC14Refire,
+		Exec: func(sc c06Scenario) pbt.Result {
+			res := execC06(sc)
+			kept := res.Violations[:0]
+			for _, v := range res.Violations {
+				if v.Kind == "alert-not-in-one-group" || v.Kind == "group-without-running-timer" || v.Kind == "stale-firing-notification" || v.Kind == "harness" {
+					kept = append(kept, v)
+				}
+			}
+			res.Violations = kept
+			res.NonTrivial = res.NonTrivial || slices.Contains(res.Classes, "parked-at-flush-end")
+			return res
+		},
+	})
+}
